@@ -95,7 +95,13 @@ impl Handle {
             Self::Clone { mut handle, tmp } => {
                 log::debug!(target: "worker", "{} cloning from {remote}", handle.local());
                 let result = radicle_fetch::clone(&mut handle, limit, remote)?;
-                mv(tmp, storage, &rid)?;
+                // N.b. only a successful clone is moved into storage. If
+                // the fetch failed, e.g. the delegate threshold was not
+                // met, nothing was applied, and the temporary repository
+                // is removed when `tmp` is dropped.
+                if result.is_success() {
+                    mv(tmp, storage, &rid)?;
+                }
                 (result, true, None)
             }
             Self::Pull {
